@@ -224,3 +224,32 @@ Proof.
   - (* unknown id: nothing delivered, read loop stays in RLRun *)
     inv_step H2; congruence.
 Qed.
+
+(* ---- double removal: removeSub of an id that is no longer in the table is a no-op; it starts the
+   close flow only if the table is (already) empty ---- *)
+Lemma remove_w_absent : forall w l, (forall i, ~ In (w, i) l) -> remove_w w l = l.
+Proof.
+  induction l as [|[w' j] l IH]; simpl; intros H; auto.
+  destruct (Nat.eqb_spec w' w); subst; [exfalso; eapply H; left; reflexivity|].
+  f_equal. apply IH. intros i Hi. eapply H. right. eauto.
+Qed.
+
+Theorem double_remove_noop_proof : forall s c x w s' e,
+  cns s c = Some x -> c_rl x = RLRemove w -> (forall i, ~ In (w, i) (c_subs x)) ->
+  step s (ARLRemove c) = Some (s', e) ->
+  e = [] /\ (forall j, pc s' j = pc s j) /\ (forall c', c' <> c -> cns s' c' = cns s c')
+  /\ exists x', cns s' c = Some x' /\ c_subs x' = c_subs x /\ c_closed x' = c_closed x /\ c_dead x' = c_dead x
+               /\ (c_rl x' = RLClose -> c_subs x = []).
+Proof.
+  intros s c x w s' e Hc Hr Hno H. simpl in H. rewrite Hc, Hr in H.
+  unfold remove_sub in H. rewrite Hc in H. rewrite (remove_w_absent _ _ Hno) in H.
+  destruct (is_nil (c_subs x)) eqn:En.
+  - apply is_nil_true in En. destruct (idle s); simpl in H; rewrite upd_same in H; inversion H; subst; clear H;
+      (split; [reflexivity|]; split; [reflexivity|]; split;
+       [intros c' Hne; simpl; rewrite !upd_other by auto; reflexivity|];
+       eexists; split; [simpl; rewrite upd_same; reflexivity|]; simpl; repeat split; auto; discriminate).
+  - simpl in H. rewrite upd_same in H. inversion H; subst; clear H.
+    split; [reflexivity|]. split; [reflexivity|]. split;
+      [intros c' Hne; simpl; rewrite !upd_other by auto; reflexivity|].
+    eexists; split; [simpl; rewrite upd_same; reflexivity|]. simpl. repeat split; auto. discriminate.
+Qed.
